@@ -386,6 +386,9 @@ def write_evidence(prop, tier, seed, reg, meta, fun_results, all_obs, results, k
         ev["coverage"]["evaluations"] = rt.get("evaluations", 0)
         ev["coverage"]["distinct_nontrivial"] = rt.get("distinct", 0)
         ev["coverage"]["rule"] = rt.get("rule", "")
+        # actual run-time cases of this run (input labels), next to the sampled obligations
+        ev["coverage"]["samples"] = ev["coverage"]["samples"][:400] + [
+            {"runtime_case": c} for c in rt.get("sample_cases", [])]
     os.makedirs(os.path.join(HERE, "evidence"), exist_ok=True)
     json.dump(ev, open(os.path.join(HERE, "evidence", prop + ".json"), "w"), indent=1, default=str)
 
